@@ -23,15 +23,18 @@ Clause by clause:
 * per block, with / without coinbase ................. `block_conserves_partial`, `validated_block_conserves_partial`
 * along any branch (hence across reorganisations) .... `branch_conserves_partial`
 
-The pinned code violates the per-transaction statement in three input shapes; each has its negation
+The pinned code violates the per-transaction statement in one input shape, which has its negation
 witness below and is excluded by exactly one hypothesis of the `_partial` theorems:
-* `v1setOwner` whose new owner is the sender, while aergo.name holds a balance (DESIGN §5 lead 11) —
-  `setOwner_owner_is_sender_burns`; excluded by `nameGuard`
-* paid `v1createName` / `v1updateName` once the owner of the name contract has been set to
-  `aergo.name` itself — `name_owner_is_name_contract_burns`; excluded by `nameGuard`
 * the balance-for-fee check of `contract.Execute` failing *after* the VM has committed a transfer to a
-  third account (a fee-delegation call in which the contract sends away what it holds) —
-  `fee_check_after_vm_commit_mints`; excluded by `leak = false`
+  third account (a fee-delegation call in which the contract sends away what it holds; also a version < 2
+  TRANSFER with empty payload to a contract) — `fee_check_after_vm_commit_mints`; excluded by
+  `leak = false` (known finding `C01-vm-fee-check-after-commit`).
+Two further shapes this check found — `v1setOwner` whose new owner is the sender (DESIGN §5 lead 11) and a
+paid `v1createName`/`v1updateName` once the owner of the name contract is `aergo.name` itself, both
+crediting a second `AccountState` copy that `executeTx` then overwrote — were repaired in /repo
+(fix: "name transactions credited a second copy of an account that executeTx overwrites"); the model is
+the repaired code and the theorems cover name transactions at full strength; the two former witnesses
+are kept as regression tests (`setOwner_owner_is_sender_conserves`, `name_owner_is_name_contract_conserves`).
 The other hypotheses are facts other properties/components guarantee and that the model does not carry:
 `Signable` (C04: the sender is a key account, not a contract, not aergo.name) and `FdTarget` (the real
 `CheckFeeDelegation` accepts only contracts; the stub VM accepts everything).
@@ -99,18 +102,18 @@ example : validateSender ctxV3 { type := .transfer, sender := 10, recipient := s
 
 /-! ### one transaction
 
-Full statement (FALSE on the pinned tree — see the three witnesses):
+Full statement (FALSE on the pinned tree — see the witness `fee_check_after_vm_commit_mints`):
   `∀ c w bp tx, (executeTx c w bp tx).w.total + (executeTx c w bp tx).bp = w.total + bp`. -/
 
 /-- **Every transaction conserves Σ balances + BpReward**: for every fork version and fee regime, every
 tx type (transfer, call, deploy, redeploy, multicall, fee delegation, stake, unstake, vote, name
 create/update/setOwner), every outcome (applied, failed with an ERROR receipt, rejected), every scripted
-VM behaviour — outside the three defect shapes excluded by `nameGuard` and `leak = false`. -/
+VM behaviour — outside the one defect shape excluded by `leak = false`. -/
 theorem executeTx_conserves_partial (c : Ctx) (w : World) (bp : Nat) (tx : Tx)
-    (hsig : Signable w tx) (hfd : FdTarget w tx) (hg : nameGuard w tx)
+    (hsig : Signable w tx) (hfd : FdTarget w tx)
     (hl : (executeTx c w bp tx).leak = false) :
     (executeTx c w bp tx).w.total + (executeTx c w bp tx).bp = w.total + bp :=
-  executeTx_total hsig hfd hg hl
+  executeTx_total hsig hfd hl
 
 /-! worlds and contexts used by the tests and witnesses below -/
 
@@ -130,53 +133,47 @@ def txStake : Tx :=
 private theorem fdTarget_of_type {w : World} {tx : Tx} (h : tx.type ≠ .feeDelegation) : FdTarget w tx :=
   fun e => absurd e h
 
-private theorem nameGuard_of_bad {w : World} {tx : Tx} (h : tx.gov = .bad) : nameGuard w tx := by
-  simp [nameGuard, h]
-
 /-- test (non-vacuity): the hypotheses hold for a fee-paying transfer and a stake, which are applied -/
-example : Signable w0 txTransfer ∧ FdTarget w0 txTransfer ∧ nameGuard w0 txTransfer ∧
+example : Signable w0 txTransfer ∧ FdTarget w0 txTransfer ∧
     (executeTx ctxPub w0 0 txTransfer).leak = false ∧ (executeTx ctxPub w0 0 txTransfer).outcome = .success ∧
     (executeTx ctxPub w0 0 txTransfer).bp = 100000 ∧
     (executeTx ctxPriv w0 0 txStake).outcome = .success := by
-  refine ⟨⟨by decide, by decide, by decide⟩, fdTarget_of_type (by decide), nameGuard_of_bad rfl,
+  refine ⟨⟨by decide, by decide, by decide⟩, fdTarget_of_type (by decide),
     by decide, by decide, by decide, by decide⟩
 
 /-- `v1setOwner` naming the sender (10) as the new owner of the name contract -/
 def txSetOwnerSelf : Tx :=
   { type := .governance, sender := 10, recipient := some 1, amount := 0, nonce := 1, payloadLen := 9, gov := .setOwner 10 }
 
-/-- **Defect witness 1** (DESIGN §5 lead 11, class `C01-setOwner-owner-is-sender`): the 500 units held by
-aergo.name are credited to a second record of the sender, which `sender.PutState()` then overwrites:
-the receipt says SUCCESS and the supply shrinks by 500. -/
-theorem setOwner_owner_is_sender_burns :
+/-- regression test for the repaired defect `C01-setOwner-owner-is-sender` (DESIGN §5 lead 11): the 500
+units held by aergo.name reach the sender's *own* record; the supply is unchanged. (Before the fix they
+were credited to a second record of the sender that `sender.PutState()` overwrote: supply − 500.) -/
+theorem setOwner_owner_is_sender_conserves :
     (executeTx ctxPriv w0 0 txSetOwnerSelf).outcome = .success ∧
-    (executeTx ctxPriv w0 0 txSetOwnerSelf).w.total + (executeTx ctxPriv w0 0 txSetOwnerSelf).bp + 500 = w0.total + 0 ∧
-    ¬ nameGuard w0 txSetOwnerSelf := by
-  refine ⟨by decide, by decide, ?_⟩
-  simp only [nameGuard, txSetOwnerSelf]
-  decide
+    (executeTx ctxPriv w0 0 txSetOwnerSelf).w.total + (executeTx ctxPriv w0 0 txSetOwnerSelf).bp = w0.total + 0 ∧
+    (executeTx ctxPriv w0 0 txSetOwnerSelf).w.bal 10 = 1000500 ∧ (executeTx ctxPriv w0 0 txSetOwnerSelf).w.bal 1 = 0 := by
+  refine ⟨by decide, by decide, by decide, by decide⟩
 
 /-- the owner of the name contract has been set to aergo.name itself (by an earlier `v1setOwner`) -/
 def w1 : World := { w0 with names := [(0, (1, 1))] }
 def txCreateName : Tx :=
   { type := .governance, sender := 11, recipient := some 1, amount := 3, nonce := 1, payloadLen := 9, gov := .nameCreate 5 }
 
-/-- **Defect witness 2** (class `C01-name-owner-is-aergo.name`): the price of the name is credited to a
-second record of aergo.name, which `receiver.PutState()` then overwrites: SUCCESS, supply − 3. -/
-theorem name_owner_is_name_contract_burns :
+/-- regression test for the repaired defect `C01-name-owner-is-aergo.name`: the price of the name reaches
+the receiver's own record of aergo.name; the supply is unchanged. (Before the fix it was credited to a
+second record of aergo.name that `receiver.PutState()` overwrote: supply − 3.) -/
+theorem name_owner_is_name_contract_conserves :
     (executeTx ctxPriv w1 0 txCreateName).outcome = .success ∧
-    (executeTx ctxPriv w1 0 txCreateName).w.total + (executeTx ctxPriv w1 0 txCreateName).bp + 3 = w1.total + 0 ∧
-    ¬ nameGuard w1 txCreateName := by
-  refine ⟨by decide, by decide, ?_⟩
-  simp only [nameGuard, txCreateName]
-  decide
+    (executeTx ctxPriv w1 0 txCreateName).w.total + (executeTx ctxPriv w1 0 txCreateName).bp = w1.total + 0 ∧
+    (executeTx ctxPriv w1 0 txCreateName).w.bal 1 = 503 := by
+  refine ⟨by decide, by decide, by decide⟩
 
 /-- a fee-delegation call: the contract (100) pays the fee and its script sends all it holds to 11 -/
 def txFdDrain : Tx :=
   { type := .feeDelegation, sender := 10, recipient := some 100, amount := 0, nonce := 1, payloadLen := 50
     script := { fee := 1000, xfers := [(11, 700000)] } }
 
-/-- **Defect witness 3** (class `C01-vm-fee-check-after-commit`): the VM call succeeds and the transfer
+/-- **Defect witness** (known finding `C01-vm-fee-check-after-commit`): the VM call succeeds and the transfer
 to account 11 is written; then `Execute` finds the contract unable to pay the fee, the tx gets an ERROR
 receipt, the contract's record is reset (its debit is lost) and charged the fee only: 700000 units are
 minted. -/
@@ -213,10 +210,10 @@ theorem coinbaseReward_exact (w : World) (bp : Nat) (cb : Option Addr) :
 
 /-! ### blocks
 
-Full statement (false on the pinned tree because of the three tx-level defects):
+Full statement (false on the pinned tree because of the tx-level defect):
   `produceBlock w b = (w', rs) → (coinbase ≠ none → w'.total = w.total) ∧ (coinbase = none → w'.total + sumFees rs = w.total)`
-for every block. Proved: the same under `TxsOK`, i.e. no transaction of the block has one of the three
-defect shapes at the state it is executed on. -/
+for every block. Proved: the same under `TxsOK`, i.e. every transaction of the block is `Signable`,
+`FdTarget` and not flagged `leak` at the state it is executed on. -/
 
 /-- **A produced block conserves the supply**: with a coinbase account Σ balances is unchanged; without
 one it shrinks by exactly the sum of the fees in the block's receipts. Any number of transactions, a
@@ -268,8 +265,8 @@ def blk1 : Block := { ctx := ctxPub, txs := [txTransfer, txGap], reward := { win
 is refused by the validator and, with the rejected tx dropped, conserves the supply -/
 example : TxsOK blk1.ctx { w := w0.beginBlock } blk1.txs ∧ validateBlock w0 blk1 = none ∧
     (produceBlock w0 blk1).1.total = w0.total ∧ sumFees (produceBlock w0 blk1).2 = 100000 := by
-  refine ⟨⟨⟨⟨by decide, by decide, by decide⟩, fdTarget_of_type (by decide), nameGuard_of_bad rfl, by decide⟩,
-    ⟨⟨by decide, by decide, by decide⟩, fdTarget_of_type (by decide), nameGuard_of_bad rfl, by decide⟩, trivial⟩,
+  refine ⟨⟨⟨⟨by decide, by decide, by decide⟩, fdTarget_of_type (by decide), by decide⟩,
+    ⟨⟨by decide, by decide, by decide⟩, fdTarget_of_type (by decide), by decide⟩, trivial⟩,
     by decide, by decide, by decide⟩
 
 /-! ### branches -/
